@@ -12,32 +12,32 @@ CHECKS = {
             "every string of length <= 4 (quick) / 5 (thorough) over a 24-symbol alphabet is lexed by the real lexer and judged by "
             "coverage invariants and per-kind predicates; plus random unicode and corpus mutations. Exhaustive inside the stated bound, sampled beyond.",
             "trusts the hand-written per-kind predicates (derived from tokenizer.txt) and the probe's reading of Tokens through kind()/range()/iter()",
-            "runtime monitoring: bounded-exhaustive + random inputs through the real lexer, invariant/predicate oracle on the observed tokens",
+            "runtime monitoring: bounded-exhaustive + random inputs through the real lexer, invariant/predicate oracle on the observed tokens; a sample of the same run is interpreted by Miri (undefined-behaviour sanitizer)",
             "probe", "4/C22"),
     "C23": ("exploration",
             "every token sequence of length <= 5 (quick) / 6 (thorough) over three 14-token sets, nesting families to depth 200, soups and corpus "
             "mutations are parsed as source file and REPL line; monitors: panic capture, losslessness of the tree, error locations, and a logical "
             "step budget (hook H3) that turns a hang into an observable event.",
             "termination is judged on parser token look-ups (hook H3), not wall-clock; loops that never look at a token are out of reach here (C06 covers them at process level)",
-            "runtime monitoring: instrumented step counter + losslessness oracle over bounded-exhaustive and mutated inputs",
+            "runtime monitoring: instrumented step counter + losslessness oracle over bounded-exhaustive and mutated inputs; a sample of the same run is interpreted by Miri",
             "probe", "4/C23"),
     "C24": ("exploration",
             "expression trees (all of depth <= 2 over every operator, depth 3 over operator triples, random to depth 5, corpus expressions) are "
             "printed, parsed by the real parser and read back through the ast accessors; printed tree and parsed tree must be identical.",
             "the printer encodes the documented table; prefix-vs-postfix interplay is taken from the grammar's comments",
-            "runtime monitoring: metamorphic print/parse/read-back oracle on the real parser",
+            "runtime monitoring: metamorphic print/parse/read-back oracle on the real parser; a sample of the same run is interpreted by Miri",
             "probe", "4/C24"),
     "C25": ("exploration",
             "every string of length <= 7 (quick) / 8 (thorough) over {a,\\n,\\r,\\t,é} x every byte offset, plus corpus and random texts, against an "
             "independent line/column model.",
             "model counts \\n bytes; the rendered diagnostic header is checked on real compilations in the C06/C07 pipeline runs",
-            "runtime monitoring: exhaustive small-scope differential check of LineIndex against a reference model",
+            "runtime monitoring: exhaustive small-scope differential check of LineIndex against a reference model; a sample of the same run is interpreted by Miri",
             "probe", "4/C25"),
     "C26": ("exploration",
             "breadth-first exploration of all protocol-conforming histories (<= 3/4 items, <= 8 rounds) of the real TopoSort in lock-step with a "
             "reference model, plus random longer histories; every observable (len, is_empty, in_cycle, peek_all, peek_all_cyclic) is compared at every round.",
             "the usage protocol is the one InferenceCtx::finish follows; histories recorded from real compilations are replayed in the pipeline part",
-            "runtime monitoring: lock-step reference-model monitor over enumerated and random operation histories",
+            "runtime monitoring: lock-step reference-model monitor over enumerated and random operation histories; a sample of the same run is interpreted by Miri",
             "probe", "4/C26"),
     "C17": ("exploration",
             "the real calc_layouts/GetLayoutInfo (hook H1) is run on a type universe that is exhaustive for unary constructors to depth 2 and for "
@@ -117,7 +117,7 @@ CHECKS = {
             "status, signal, panic/verifier/internal-error text, CPU budget and whether an object file exists; allowed outcomes are exit 0 + object or exit 1 + "
             "error lines. Known crash sites are pinned (known_findings.json) and every other crash site is a violation.",
             "'bounded time' = 20 s CPU for inputs <= 64 KiB, re-run once alone before it counts; hangs of inputs containing comptime code are inconclusive",
-            "runtime monitoring: process-level crash/hang monitor (exit status, signal, internal-error text, CPU budget) over generated and mutated inputs",
+            "runtime monitoring: process-level crash/hang monitor (exit status, signal, internal-error text, CPU budget) over generated and mutated inputs + valgrind memcheck on a sample of the compilations",
             "cli", "4/C06"),
     "C13": ("exploration",
             "variables of nominal types (distinct wrappers incl. distinct of distinct over 15 primitive bases, variants of two enums with identical payloads, "
@@ -149,7 +149,7 @@ CHECKS = {
             "processes (ASLR on) and three times by `probe pipeline` with the files supplied in permuted orders; object bytes and the full diagnostic output "
             "are compared for equality.",
             "timing fragments of the CLI output are masked; the CLI itself has no way to take a file list, so permuted orders go through the probe driver",
-            "runtime monitoring: repeated-execution differential monitor (object hash + diagnostics) across fresh processes and file orders",
+            "runtime monitoring: repeated-execution differential monitor (object hash + diagnostics) across fresh processes, dirty output directories and file orders + valgrind memcheck (definedness of the object bytes) on a sample",
             "probe+cli", "4/C21"),
     "C28": ("exploration",
             "random directory trees (<= 6 local files in <= 3 directories + a generated module directory, three cwd/module layouts) with random relative imports "
@@ -250,10 +250,14 @@ def main():
             "add_only": True,
         },
         "engines": [
-            {"name": "probe", "path": "/verif/harness/probe", "serves_properties": sorted(k for k, v in CHECKS.items() if v[4] == "probe"),
+            {"name": "probe", "path": "/verif/harness/probe", "serves_properties": sorted(k for k, v in CHECKS.items() if "probe" in v[4]),
              "kind_free_text": "Rust binary linking the real capy crates (hooks on); generators, oracles and reference models inside; one JSON report per run"},
-            {"name": "cli+programs", "path": "/verif/vlib", "serves_properties": sorted(k for k, v in CHECKS.items() if v[4] == "cli"),
+            {"name": "cli+programs", "path": "/verif/vlib", "serves_properties": sorted(k for k, v in CHECKS.items() if "cli" in v[4]),
              "kind_free_text": "python3 drivers: generated capy programs compiled by the real release CLI, linked with rt/vr_rt.c, executed under rlimits; reference models and trace checkers in python"},
+            {"name": "miri", "path": "/verif/harness/probe", "serves_properties": ["C22", "C23", "C24", "C25", "C26"],
+             "kind_free_text": "the probe built with --no-default-features (front-end crates only, hooks on) interpreted by `cargo +nightly miri run` in parallel shard processes: undefined behaviour in the lexer/parser/ast/line_index/topo code paths the lite workloads reach is reported as a violation"},
+            {"name": "valgrind-memcheck", "path": "/usr/bin/valgrind", "serves_properties": ["C04", "C06", "C21"],
+             "kind_free_text": "the release CLI run under valgrind memcheck on sampled compilations: addressability errors inside the compiler (C04, C06) and uninitialised bytes reaching the object file (C21)"},
         ],
         "checks": [],
         "not_applicable": [],
